@@ -74,7 +74,7 @@ CHECKS = {
    technique='Coq proof (decode/encode of the post-order array, structural induction on treespecs) + extracted-model correspondence',
    text='Theorems: flatten always yields the encoding of a well-formed structured treespec (decode . encode = id); children counts sum to the parent; '
         'child/entry follow Python index semantics with IndexError outside [-n, n); the root is rebuilt from one_level + children; compose multiplies leaves and preserves '
-        'well-formedness; transform(identity) is the identity and leaf replacement equals compose; ARRAY LEVEL: the engine\'s backwards index walk over the node array (Children / Child: skip whole subtrees by num_nodes) returns exactly the arrays of the children of the structured treespec for every well-formed treespec, without reaching any of its internal-error checks (C08_array_children). The correspondence run compares every inspection method (counts, kind, type, '
+        'well-formedness; transform(identity) is the identity and leaf replacement equals compose; ARRAY LEVEL: the engine\'s backwards index walk over the node array (Children / Child: skip whole subtrees by num_nodes) returns exactly the arrays of the children of the structured treespec for every well-formed treespec, without reaching any of its internal-error checks (C08_array_children); CONSTRUCTORS: MakeFromCollection (treespec_from_collection / treespec_tuple / _list / _dict / _ordereddict / _defaultdict / _deque / _namedtuple / _structseq) applied to the treespecs of the children of a collection returns the treespec of the collection itself (same node array and none_is_leaf, compatible namespace) and fails exactly when flattening the collection fails, with the same exception (C08_constructor_is_flatten); the engine\'s flatten is the post-order encoding of a tree-level flatten (C08_flatten_is_encoded_tree_flatten). The correspondence run compares (cmd 22) treespec_from_collection on 1.2 k one-level collections of all kinds whose children were flattened under their own none_is_leaf / namespace (results and the three error kinds), every inspection method (counts, kind, type, '
         'paths, accessors, children, child(i) and entry(i) for all i in [-n-1, n], entries, one_level) and compose/transform/broadcast results (full node arrays) with the implementation.',
    note=TB + 'The treespec algorithms are modelled at tree level (stree); the array layer is tied in by decode/encode theorems, by the refinement proof of the Children() walk (the step every other reverse walk repeats) and by comparing full __getstate__ arrays; the other C++ index walks (Paths, IsPrefix with its sibling re-ordering, Broadcast, FlattenUpTo) have no array-level refinement proof. treespec_* constructors and repr text are compared only through the harness.',
    design='§7 C08'),
